@@ -313,10 +313,11 @@ func runC12(r *ev.Run, rep *ev.ReplayDoc) ev.Summary {
 		}
 		// a destination that refuses one write and then works again, at every k; on a fresh message and on one that
 		// has been rendered before (boundaries and file headers are cached then)
-		if s.SMIME == "" {
-			for k := int64(0); k < L; k++ {
-				jobs = append(jobs, job{c12Case{Spec: s, SinkLimit: k, Transient: true, Primed: k%2 == 0}})
+		for k := int64(0); k < L; k++ {
+			if s.SMIME != "" && k%3 != 0 && k > 600 {
+				continue // signed shapes: every offset of the header block, every third one after it
 			}
+			jobs = append(jobs, job{c12Case{Spec: s, SinkLimit: k, Transient: true, Primed: k%2 == 0}})
 		}
 		rng := r.Rng("c12short", si)
 		for j := 0; j < 12; j++ {
